@@ -49,6 +49,17 @@ def check(run):
                  'statistics describe the table or frame at hand: no memoising decorator and no class-level container used as a cache in the '
                  'database handlers or the shared discovery/verification base (such a cache is keyed by name only and shared by every connection)')
     dtypes(run, p)
+    from .common import zero_rule
+    STAT = {'get_min', 'get_max', 'get_min_length', 'get_max_length', 'get_nunique', 'get_null_count', 'get_non_null_count', 'get_nrecords',
+            'calc_min', 'calc_max', 'calc_min_length', 'calc_max_length', 'calc_nunique', 'calc_null_count', 'calc_non_null_count',
+            'len', 'sum', 'count', 'nunique', 'min', 'max', 'execute_scalar', 'agg'}
+    n = zero_rule(run, 'C07-ZERO', p, [f for f in p.funcs.values() if f.rel in (
+        'tdda/constraints/baseconstraints.py', 'tdda/constraints/pd/constraints.py', 'tdda/constraints/db/drivers.py',
+        'tdda/constraints/db/constraints.py')], STAT,
+                  'zero is a statistic: a minimum, maximum, length or count obtained from the calculators or the database is compared '
+                  'or tested with `is None`, never used as a bare condition (a minimum of 0 or an empty shortest string would '
+                  'otherwise be reported as absent)')
+    run.floor('C07-ZERO', n, 10)
     from .common import observed_rule
     calc = p.cls('PandasConstraintCalculator')
     n = observed_rule(run, 'C07-OBSERVED', p, list(calc.methods.values()),
